@@ -538,6 +538,10 @@ class OpWorld(World):
             if self.harness is not None and self.harness.cur_spec is not None:
                 self.snaps["spec"].append(self.harness.capture_spec(self.harness.cur_spec))
             return None
+        if k == "observer" and method == "never" and o.name == "spec_out":
+            # spec primitive: "the sequence that never notifies" (what the real code writes as reactivex.never())
+            it.ctx.assume(z3.And(NEVER != smt.NONE, NEVER != ABSENT))
+            return ValSV(NEVER)
         if k == "observer" and method == "dispose_source" and o.name == "spec_out":
             # spec primitive: "the subscription to source i is released now"
             self.struct["spec"].append(("dispose-src", args[0]))
@@ -732,6 +736,8 @@ IS_SUBJ = z3.Function("is_subject", smt.Val, z3.BoolSort())
 SEQ_WITHOUT = z3.Function("seq_without", smt.SeqVal, smt.Val, smt.SeqVal)
 SEQ_REPLACE = z3.Function("seq_replace", smt.SeqVal, smt.Val, smt.Val, smt.SeqVal)
 SHARED = z3.Function("shared_face", smt.Val, smt.Val, z3.BoolSort(), smt.Val)
+#: `reactivex.never()` through its contract (srcfac.py: subscribing to it calls nothing, ever): the sequence that never notifies
+NEVER = z3.Const("never_observable", smt.Val)
 
 
 def shared_face(it, key, subject, shares):
@@ -1247,6 +1253,12 @@ class OpHarness:
             o = self.w.new_source(it, f"from_future({args[0].name})")
             o.attrs["term"] = args[0].attrs["term"]
             return o
+        if f.qualname in ("never", "never_") and f.module.name in ("reactivex", "reactivex.observable.never") and not args and not kwargs:
+            # callee contract (srcfac.py): the sequence that never notifies; all of them are the same sequence to a subscriber
+            o = self.w.new_source(it, "never()")
+            it.ctx.assume(z3.And(NEVER != smt.NONE, NEVER != ABSENT))
+            o.attrs["term"] = NEVER
+            return o
         c = self.callees.get((f.module.name, f.qualname))
         if c is None:
             return NOTSET
@@ -1276,8 +1288,7 @@ class OpHarness:
         self.cur_spec = None
         self.cur_cells_env = None
         it = Interp(self.loader, ctx, w)
-        if self.callees or getattr(c, "subjects", False) or self.elements_may_be_futures(it):
-            it.call_hook = self.callee_hook
+        it.call_hook = self.callee_hook
         if self.lockset:
             it.list_hook = self.on_cell_write
         it.loop_contracts = dict(c.loops)
